@@ -116,7 +116,7 @@ class LoopSpec:
     def run(self, interp, st, fr, rng, target):
         ctx = interp.ctx
         if rng is not None:
-            raise Unsupported("invariant rule for `for` loops is provided by ForLoopSpec")
+            return self.run_for(interp, st, fr, rng, target)
         ctx.prove(f"{self.name}.init", self.invariant(interp, fr))
         self.havoc(interp, fr)
         ctx.assume_pc(self.invariant(interp, fr))
@@ -134,6 +134,42 @@ class LoopSpec:
             ctx.prove(f"{self.name}.preserved", self.invariant(interp, fr))
             raise PathCut()
         interp.exec_block(st.orelse, fr)
+
+
+def _loopspec_run_for(self, interp, st, fr, rng, target):
+    """`for v in range(lo, hi)`: the invariant takes the number k of completed iterations,
+    ``invariant(interp, frame, k)``; the loop variable holds lo + k during iteration k"""
+    ctx = interp.ctx
+    if not isinstance(target, ast.Name) or concrete(rng.step) != 1:
+        raise Unsupported("invariant rule needs `for name in range(..)` with step 1")
+    lo, hi = to_z3(rng.start), to_z3(rng.stop)
+    n_iter = z3.If(hi >= lo, hi - lo, z3.IntVal(0))
+    ctx.prove(f"{self.name}.init", self.invariant(interp, fr, z3.IntVal(0)))
+    self.havoc(interp, fr)
+    k = z3.Int(fresh_name("k"))
+    if ctx.branch(z3.Bool(fresh_name("loop_body_or_exit"))):
+        # an arbitrary iteration
+        ctx.assume_pc(z3.And(k >= 0, k < n_iter))
+        fr.locals[target.id] = lo + k
+        ctx.assume_pc(self.invariant(interp, fr, k))
+        try:
+            interp.exec_block(st.body, fr)
+        except _Continue:
+            pass
+        except _Break:
+            return  # leaves the loop from an arbitrary iteration (for-else is skipped)
+        ctx.prove(f"{self.name}.preserved", self.invariant(interp, fr, k + 1))
+        raise PathCut()
+    # exit after all iterations
+    if ctx.branch(n_iter >= 1):
+        fr.locals[target.id] = lo + n_iter - 1
+    else:
+        fr.locals.pop(target.id, None) if target.id not in fr.locals else None
+    ctx.assume_pc(self.invariant(interp, fr, n_iter))
+    interp.exec_block(st.orelse, fr)
+
+
+LoopSpec.run_for = _loopspec_run_for
 
 
 class Interp:
@@ -689,6 +725,12 @@ class Interp:
                 m, _ = obj.cls.lookup("__getitem__")
                 if m is not None:
                     return self.call(BoundMethod(m, obj), [key], {})
+        from .builtins_model import FlatView
+
+        if isinstance(obj, FlatView):
+            if obj.arr.ndim == 1:
+                return self.getitem(obj.arr, key)
+            raise Unsupported("flat view of an nd array")
         if isinstance(obj, RangeVal):
             if is_int(key):
                 return binop("+", obj.start, binop("*", key, obj.step))
